@@ -4,3 +4,4 @@ import EbisimModel.Gen.Kernels
 import EbisimModel.Gen.Dispatch
 import EbisimModel.Gen.Tables
 import EbisimModel.Model.Radial
+import EbisimModel.Model.Chunks
